@@ -414,4 +414,63 @@ example : definitiveTactic
 example : ∀ c, trim (trim c) = trim c ∧ (hasNewline c = false → hasNewline (trim c) = false) :=
   fun c => ⟨trim_idem c, hasNewline_trim c⟩
 
+/-! ## C02 / C07: what was measured is what is written -/
+
+/-- **A plain list written horizontally.**  For items without comments whose item strings are not empty,
+a comma list without trailing separator written with the Horizontal tactic is the item strings joined by
+`", "` (`horizGo 0`), for every comment rewriter, shape and configuration. -/
+theorem writeList_horizontal_plain (f : ListFormatting) (rc : Rc) (items : List ListItem)
+    (hf : f.tactic = .horizontal) (hsep : f.separator = [',']) (htr : f.trailingSeparator ≠ .always)
+    (hitems : ∀ it ∈ items, Plain it) :
+    writeList f rc items = some (horizGo 0 items) := by
+  have hplace : placeOf f = .back := by simp [placeOf, SeparatorPlace.fromTactic, hf, hsep]
+  have hts : (State.init f).trailingSeparator = false := by
+    simp only [State.init, ListFormatting.needsTrailingSeparator, hf]
+    cases h : f.trailingSeparator <;> simp_all
+  have := loop_plain_horizontal (f := f) rc (indentString f.shape.indent f.config) hf hsep items 0
+    (State.init f) hitems hts
+  unfold writeList writeListPieces
+  simp only [placeOf] at hplace
+  rw [hplace, Option.map_map]
+  simpa [State.init] using this
+
+/-- **The horizontal layout fits.**  If `definitive_tactic` chose Horizontal by measuring (the caller asked
+for HorizontalVertical, LimitedHorizontalVertical or Mixed) for plain items, a comma separator and
+`width`, then the list written horizontally is exactly as wide as measured and at most `width` wide:
+the decision and the writer agree on the width, to the column. -/
+theorem writeList_horizontal_fits (f : ListFormatting) (rc : Rc) (items : List ListItem)
+    (tactic : ListTactic) (width : Nat)
+    (hf : f.tactic = .horizontal) (hsep : f.separator = [',']) (htr : f.trailingSeparator ≠ .always)
+    (hitems : ∀ it ∈ items, Plain it) (ht : tactic ≠ .horizontal)
+    (h : definitiveTactic items tactic .comma width = .horizontal) :
+    ∃ out, writeList f rc items = some out ∧ strWidth out = realTotal items .comma ∧
+      strWidth out ≤ width := by
+  refine ⟨_, writeList_horizontal_plain f rc items hf hsep htr hitems, ?_⟩
+  have hw : strWidth (horizGo 0 items) = realTotal items .comma := by
+    rw [strWidth_horizGo_zero, realTotal]
+    have : items.map totalItemWidth = items.map (fun it => strWidth it.innerAsRef) :=
+      List.map_congr_left (fun it hit => totalItemWidth_plain (hitems it hit))
+    rw [this]
+    rfl
+  refine ⟨hw, ?_⟩
+  rw [hw]
+  rw [definitiveTactic_spec] at h
+  obtain ⟨_, h2⟩ := h
+  rcases h2 with h2 | ⟨_, _, h3, _⟩
+  · exact absurd h2 ht
+  · have : tacticLimit tactic width ≤ width := by
+      unfold tacticLimit; split <;> omega
+    omega
+
+example : writeList
+    { ListFormatting.new (Shape.legacy 8 Indent.empty) ⟨false, 4, 100, 80⟩ false with tactic := .horizontal }
+    rcTrim [ListItem.fromStr "aaa".toList, ListItem.fromStr "bbb".toList] = some "aaa, bbb".toList := by
+  decide
+
+example : Plain (ListItem.fromStr "aaa".toList) := ⟨rfl, rfl, _, rfl, by decide⟩
+
+/-- One column less and `definitive_tactic` refuses the horizontal layout: the bound is tight. -/
+example : definitiveTactic [ListItem.fromStr "aaa".toList, ListItem.fromStr "bbb".toList]
+    .horizontalVertical .comma 7 = .vertical ∧ strWidth "aaa, bbb".toList = 8 := by decide
+
 end RF.Props.Lists
